@@ -58,6 +58,13 @@ func main() {
 	_ = fs.Parse(os.Args[2:])
 
 	if *child {
+		// a child never outlives its supervisor (a hanging case would otherwise spin for ever)
+		go func(parent int) {
+			for os.Getppid() == parent {
+				time.Sleep(2 * time.Second)
+			}
+			os.Exit(3)
+		}(os.Getppid())
 		if fam.init != nil {
 			if err := fam.init(); err != nil {
 				fmt.Fprintln(os.Stderr, "init:", err)
